@@ -327,11 +327,16 @@ def case_ops_text(case):
     return "\n".join(case["ops"]) + "\n"
 
 
+SHRINK_DEADLINE = [None]   # wall-clock limit for all shrinking of one check run (set in main)
+
+
 def shrink(prop, pid, binpath, case, workdir, pred, budget=150):
     """delta-debug the op lines of one case (the `case` header stays); pred(result)->bool"""
     ops = list(case["ops"])
     head, body = ops[:1], ops[1:]
     runs = 0
+    if SHRINK_DEADLINE[0] is not None and time.time() > SHRINK_DEADLINE[0]:
+        budget = 0   # out of time: report the case as it is (still a valid replay, just not minimal)
 
     def still_fails(b):
         nonlocal runs
@@ -343,7 +348,7 @@ def shrink(prop, pid, binpath, case, workdir, pred, budget=150):
         return pred(r)
 
     n = 2
-    while len(body) >= 2 and runs < budget:
+    while len(body) >= 2 and runs < budget and not (SHRINK_DEADLINE[0] is not None and time.time() > SHRINK_DEADLINE[0]):
         chunk = max(1, len(body) // n)
         removed = False
         for i in range(0, len(body), chunk):
@@ -499,6 +504,8 @@ def main():
             log("T3-FAIL", json.dumps(t))
 
     # ---- decision -------------------------------------------------------------------------------
+    # replays are minimised by delta debugging; on a tree with very many failures that must not take for ever
+    SHRINK_DEADLINE[0] = time.time() + (180 if args.tier == "quick" else 900)
     known, fixed = load_known()
     violations = []   # (replay_path, note)
     known_hits = []
